@@ -9,20 +9,20 @@ ROOT = os.path.dirname(os.path.dirname(os.path.abspath(__file__)))
 
 TECH = {
     "C01": "runtime monitoring: hostile call histories in a checked (overflow/debug-assert/ub_checks) build with panic/abort/hang supervision, differential trace against the shipping-style build; thorough adds AddressSanitizer, valgrind memcheck and coverage-guided fuzzing of the same case runner",
-    "C02": "runtime monitoring: structural invariant monitor over every returned hit (independent accent composer, sentinel-marker substitution), plus the real WASM bridge compiled natively",
-    "C03": "runtime monitoring: metamorphic monitor (record must be among the hits) over systematically derived prefix queries, incl. the whole e-commerce corpus as one store",
-    "C04": "runtime monitoring: metamorphic monitor over every single edit (4 kinds x every position) of every qualifying title word",
+    "C02": "runtime monitoring: structural invariant monitor over every returned hit (independent accent composer, sentinel-marker substitution), plus the real WASM bridge compiled natively; also in stores of languages drawn at random through the public Lang API (the table, read as the property reads it, is the model)",
+    "C03": "runtime monitoring: metamorphic monitor (record must be among the hits) over systematically derived prefix queries, incl. the whole e-commerce corpus as one store, stores of languages drawn at random, and sessions with pauses of about 2^16 searches",
+    "C04": "runtime monitoring: metamorphic monitor over every single edit (4 kinds x every position) of every qualifying title word; also in stores of languages drawn at random and after pauses of about 2^16 searches",
     "C05": "runtime monitoring: reference-model monitor (gram sets recomputed from the public tokeniser) + span-length bound + exact-prefix highlight model",
     "C06": "runtime monitoring: differential monitor (full store vs one-record stores vs unlimited store) on fresh stores",
     "C07": "runtime monitoring: metamorphic monitor (pairwise two-record stores, permuted insertion orders)",
     "C08": "runtime monitoring: metamorphic ranking monitor on generated two-record stores with adversarial ratings",
     "C09": "runtime monitoring: structural invariant monitor (markup parser aligned with the public tokenisation)",
     "C10": "runtime monitoring: history monitor against a sequential model (freshly built store), exhaustive short histories + random long ones; thorough adds Miri",
-    "C11": "runtime monitoring: metamorphic monitor (re-cased / decomposed / accent-folded / separator-prefixed query variants; decomposed stored titles)",
+    "C11": "runtime monitoring: metamorphic monitor (re-cased / decomposed / accent-folded / separator-prefixed query variants; decomposed stored titles), also for languages defined per case through the public Lang API",
     "C12": "runtime monitoring: reference-model monitor for the empty-query ranking incl. tie rules, before and after further adds",
-    "C13": "runtime monitoring: metamorphic monitor (whole title, two words in either order)",
-    "C14": "runtime monitoring: metamorphic monitor (every split point, every single-separator join)",
-    "C15": "runtime monitoring: structural invariant monitor over tokeniser output, exhaustive short strings over an adversarial alphabet + random hostile strings",
+    "C13": "runtime monitoring: metamorphic monitor (whole title, two words in either order - as normalised and as they stand in the title); also in stores of languages drawn at random",
+    "C14": "runtime monitoring: metamorphic monitor (every split point, every single-separator join); also in stores of languages drawn at random",
+    "C15": "runtime monitoring: structural invariant monitor over tokeniser output, exhaustive short strings over an adversarial alphabet + random hostile strings + every Unicode scalar value; also for languages drawn at random through the public Lang API (composed input from the table read as the property reads it)",
     "C16": "runtime monitoring: reference-model monitor (Levenshtein / unrestricted DL bounds, fresh-instance and prefix-cell comparison) through a guarded re-export, exhaustive short words + random long ones in alternating order, on shared and per-case instances; thorough adds Miri",
     "C17": "runtime monitoring: reference-model monitor (set-based Jaccard) through a guarded re-export, exhaustive short sequences + random long ones in alternating order; thorough adds Miri",
     "C18": "runtime monitoring: reference-model monitor of TrigramIndex::prepare (shared-gram counts recomputed from the public tokeniser)",
